@@ -134,6 +134,14 @@ def gen_bodies(u, msg, extra_ctors=False):
                   ("VhostUserSingleMemoryRegion", "new", "r.padding == 0, r.region == (VhostUserMemoryRegion { guest_phys_addr, memory_size, user_addr, mmap_offset })"),
                   ("VhostUserTransferDeviceState", "new", "r.direction == direction.code(), r.phase == phase.code()"),
                   ("VhostUserVringAddr", "from_config_data", "r.index == index, r.flags == config_data.flags, r.descriptor == config_data.desc_table_addr, r.used == config_data.used_ring_addr, r.available == config_data.avail_ring_addr, r.log == (match config_data.log_addr { Some(a) => a, None => 0 })")]
+    if extra_ctors:
+        # VringConfigData helpers (vhost/src/backend.rs) used by from_config_data / the kernel backends
+        bk = Source("vhost/src/backend.rs")
+        sp = bk.impl_span(r'^impl VringConfigData$')
+        u.raw("impl VringConfigData {")
+        u.extracted_fn(bk, "is_log_addr_valid", within=sp, contract="    ensures r == !(self.flags & 0x1 != 0 && self.log_addr is None) // [C19,C02]")
+        u.extracted_fn(bk, "get_log_addr", within=sp, contract="    ensures r == (if self.flags & 0x1 != 0 && self.log_addr is Some { self.log_addr->Some_0 } else { 0 }) // [C19,C02]")
+        u.raw("}")
     for ty, fn, ens in ctors:
         span = None
         for mm in re.finditer(r'(?m)^impl %s\s*\{' % ty, msg.src):
